@@ -199,7 +199,12 @@ impl<'a, 'b> B<'a, 'b> {
             if !self.spend() {
                 break;
             }
-            match self.t.below(6) {
+            let which = self.t.below(6);
+            if which >= 2 && which != 3 && self.p.toks.last().is_some_and(|t| t.text == "]" || t.text == ")") {
+                // `a[i][j]`, `a[i](x)`, `f(x)[i]`, `f(x)(y)`: postfix directly after a closing bracket
+                self.tag("postfix-after-bracket");
+            }
+            match which {
                 0 | 1 => {
                     self.op(".");
                     self.id();
